@@ -64,6 +64,10 @@ def _specs():
     add("Complementary/MARG", "gam", lambda F, g, a, m, P: F.Complementary(g, a, m, **P.get("complementary", {})).Q)
     add("AngularRate/closed", "g", lambda F, g, a, m, P: F.AngularRate(g, **P.get("angular", {})).Q)
     add("AngularRate/series", "g", lambda F, g, a, m, P: F.AngularRate(g, method="series", order=P.get("order", 3), **P.get("angular", {})).Q)
+    # the third method option: roll-pitch-yaw rates summed up (vectorised), in each representation
+    add("AngularRate/integration", "g", lambda F, g, a, m, P: F.AngularRate(g, method="integration", **P.get("angular", {})).Q)
+    add("AngularRate/integration/rotmat", "g", lambda F, g, a, m, P: F.AngularRate(g, method="integration", representation="rotmat", **P.get("angular", {})).R, "rotmat")
+    add("AngularRate/integration/angles", "g", lambda F, g, a, m, P: F.AngularRate(g, method="integration", representation="angles", **P.get("angular", {})).W, "angles")
     add("AngularRate/rotmat", "g", lambda F, g, a, m, P: F.AngularRate(g, representation="rotmat", **P.get("angular", {})).R, "rotmat")
     add("AngularRate/angles", "g", lambda F, g, a, m, P: F.AngularRate(g, representation="angles", **P.get("angular", {})).W, "angles")
     add("Tilt/acc", "a", lambda F, g, a, m, P: F.Tilt(a).Q)
